@@ -166,8 +166,21 @@ fn run_client(argv: &[String]) -> ! {
         }
     };
     let results = run_ops(conn.clone(), &ops);
+    // Connection::address() is documented as the way to open another connection to the same service
+    let reconnect = if transport == "address" {
+        let a = conn.read().unwrap().address();
+        match varlink::Connection::with_address(&a) {
+            Ok(c2) => {
+                let r = run_ops(c2, &["echo:again".to_string()]);
+                json!({"address": a, "result": r})
+            }
+            Err(e) => json!({"address": a, "error": format!("{:?}", e.kind())}),
+        }
+    } else {
+        Value::Null
+    };
     let child = conn.write().unwrap().child.take();
-    println!("{}", json!({"results": results}));
+    println!("{}", json!({"results": results, "reconnect": reconnect}));
     if let Some(mut c) = child {
         let _ = c.kill();
         let _ = c.wait();
@@ -215,7 +228,7 @@ fn c16(args: &Args) -> ! {
     }
     let svc = svc_exe();
     let mut transports: Vec<(String, String, String)> = addr_transports.iter().map(|(n, a)| (n.to_string(), "address".to_string(), a.clone())).collect();
-    transports.push(("activate".into(), "activate".into(), format!("{} serve --iface org.verif.a --idle 20 --varlink=$VARLINK_ADDRESS", svc.display())));
+    transports.push(("activate".into(), "activate".into(), format!("{} serve --banner --iface org.verif.a --idle 20 --varlink=$VARLINK_ADDRESS", svc.display())));
     transports.push(("bridge".into(), "bridge".into(), format!("{} stdio --iface org.verif.a", svc.display())));
     let reference_svc = Arc::new(test_service("org.verif.a"));
     let mut idx = 0u64;
@@ -268,6 +281,9 @@ fn c16(args: &Args) -> ! {
                         }
                     }
                     v
+                }
+                if kind == "address" && v["reconnect"]["result"] != json!([{"ok": {"v": "again"}}]) {
+                    rep.violation(&format!("C16/{}/reconnect-through-address", tname), &format!("a second connection opened with Connection::address() of the first: {}", v["reconnect"]), case.clone());
                 }
                 if canon(&v["results"]) != canon(&Value::Array(reference.clone())) {
                     rep.violation(&format!("C16/{}/replies-differ", tname), &format!("over {} the operations returned {} but the in-memory reference gives {}", tname, v["results"], Value::Array(reference.clone())), case);
@@ -694,7 +710,7 @@ fn canon_reply(v: &Value) -> Value {
 }
 
 fn c18(args: &Args) -> ! {
-    let mut rep = Report::new("C18", "the real `varlink bridge` process, one OS schedule per case: modes {resolver lookup, --connect ADDRESS, --activate CMD, --bridge 'varlink bridge --connect'} x every request sequence of length<=2 (thorough 3) over {Echo at service a, Echo at service b, Stream with more, oneway Echo, Fail, unknown interface, GetInfo, GetInterfaceDescription} x client behaviour {one request at a time, fully pipelined} with the client keeping its side open until the last expected reply; upgraded sessions echoing payloads of 1 byte / 3 lines / 64 KiB; oracle: reply sequence equals the one obtained from the owning service over a direct connection (GetInfo: the resolver's), and after the client closes the bridge exits within 10 s with status 0 or non-zero with a diagnostic, never hangs or panics; non-trivial = distinct (mode, sequence, client behaviour)");
+    let mut rep = Report::new("C18", "the real `varlink bridge` process, one OS schedule per case: modes {resolver lookup, --connect ADDRESS, --activate CMD, --bridge 'varlink bridge --connect'} x every request sequence of length<=2 (thorough 3) over {Echo at service a, Echo at service b, Stream with more, oneway Echo, Fail, unknown interface, GetInfo, GetInterfaceDescription} x client behaviour {one request at a time, fully pipelined} with the client keeping its side open until the last expected reply; upgraded sessions echoing payloads of 1 byte / 3 lines / 64 KiB; a slow call followed by a 500 KiB pipelined burst (back-pressure); the activated service prints a line on its own stdout; oracle: reply sequence equals the one obtained from the owning service over a direct connection (GetInfo: the resolver's), and after the client closes the bridge exits within 10 s with status 0 or non-zero with a diagnostic, never hangs or panics; non-trivial = distinct (mode, sequence, client behaviour)");
     if !Path::new(VARLINK_CLI).exists() {
         machinery("varlink CLI binary missing (./check --setup builds it)");
     }
@@ -732,7 +748,7 @@ fn c18(args: &Args) -> ! {
     let modes: Vec<(&str, Vec<String>)> = vec![
         ("resolver", vec!["-R".into(), hard.into(), "bridge".into()]),
         ("connect", vec!["bridge".into(), "--connect".into(), a_addr.clone()]),
-        ("activate", vec!["--activate".into(), format!("{} serve --iface org.verif.a --idle 20 --varlink=$VARLINK_ADDRESS", svc.display()), "bridge".into()]),
+        ("activate", vec!["--activate".into(), format!("{} serve --banner --iface org.verif.a --idle 20 --varlink=$VARLINK_ADDRESS", svc.display()), "bridge".into()]),
         ("bridge", vec!["--bridge".into(), format!("{} bridge --connect {}", VARLINK_CLI, a_addr), "bridge".into()]),
     ];
     let maxlen = if args.thorough() { 3 } else { 2 };
@@ -845,6 +861,76 @@ fn c18(args: &Args) -> ! {
                     rep.violation(&format!("C18/{}/hang-after-close", mname), "the bridge did not exit within 10 s after the client closed its side", case.clone());
                 } else if status != "exit:0" && stderr.trim().is_empty() {
                     rep.violation(&format!("C18/{}/silent-failure", mname), &format!("bridge exited with {} without a diagnostic", status), case.clone());
+                }
+            }
+        }
+        // back-pressure: a slow first call, then a pipelined burst larger than any socket buffer
+        {
+            idx += 1;
+            let case = json!({"mode": mname, "burst": "sleep+500x1KiB"});
+            let mine = if let Some(r) = &replay { *r == case } else if *mname == "resolver" { args.shard == 0 } else if args.nshards > 1 { args.shard != 0 && (idx % (args.nshards as u64 - 1)) as usize == args.shard - 1 } else { true };
+            if mine {
+                rep.eval(Some(&case.to_string()));
+                let pad = "p".repeat(1000);
+                let mut reqs = vec![json!({"method": "org.verif.a.Sleep", "parameters": {"ms": 700}})];
+                for i in 0..500 {
+                    reqs.push(json!({"method": "org.verif.a.Echo", "parameters": {"v": format!("{}-{}", i, pad)}}));
+                }
+                let mut cmd = Command::new(VARLINK_CLI);
+                cmd.args(margs).stdin(Stdio::piped()).stdout(Stdio::piped());
+                let errfile = d.join(format!("bridge_err_{}", idx));
+                cmd.stderr(std::fs::File::create(&errfile).unwrap());
+                cmd.process_group(0);
+                let mut ch = cmd.spawn().unwrap_or_else(|e| machinery(&format!("cannot spawn bridge: {}", e)));
+                let pid = ch.id() as i32;
+                let mut stdin = ch.stdin.take().unwrap();
+                let stdout = ch.stdout.take().unwrap();
+                let ofd = stdout.as_raw_fd();
+                let mut got: Vec<u8> = vec![];
+                let want_finals = reqs.len();
+                std::thread::scope(|sc| {
+                    let rq = &reqs;
+                    let si = &mut stdin;
+                    // the client writes while it reads: a well-behaved pipelining client
+                    sc.spawn(move || {
+                        for r in rq {
+                            if si.write_all(&frame(r)).is_err() {
+                                break;
+                            }
+                        }
+                        let _ = si.flush();
+                    });
+                    let deadline = Instant::now() + Duration::from_secs(15);
+                    while Instant::now() < deadline && count_finals(&got) < want_finals {
+                        match read_fd(ofd, Duration::from_millis(200)) {
+                            Rd::Data(b) => got.extend(b),
+                            Rd::Timeout => {}
+                            Rd::Eof => break,
+                        }
+                    }
+                    if count_finals(&got) < want_finals {
+                        unsafe {
+                            libc::kill(-pid, libc::SIGKILL); // unblock the writer
+                        }
+                    }
+                });
+                drop(stdin);
+                let t0 = Instant::now();
+                while ch.try_wait().ok().flatten().is_none() && t0.elapsed() < Duration::from_secs(10) {
+                    std::thread::sleep(Duration::from_millis(3));
+                }
+                unsafe {
+                    libc::kill(-pid, libc::SIGKILL);
+                }
+                let _ = ch.kill();
+                let _ = ch.wait();
+                let stderr = std::fs::read_to_string(&errfile).unwrap_or_default();
+                let _ = std::fs::remove_file(&errfile);
+                let replies = split_replies(&got);
+                let ok = replies.len() == want_finals && replies.iter().skip(1).enumerate().all(|(i, r)| r["parameters"]["v"].as_str().map(|s| s.starts_with(&format!("{}-", i))).unwrap_or(false));
+                rep.outcome(&format!("{}:burst:{}", mname, replies.len()));
+                if !ok {
+                    rep.violation(&format!("C18/{}/burst", mname), &format!("{} of {} replies arrived (in order: {}) for a slow call followed by a 500 KiB pipelined burst; stderr {:?}", replies.len(), want_finals, ok, stderr.chars().take(300).collect::<String>()), case);
                 }
             }
         }
